@@ -87,7 +87,7 @@ func Content(name string) *idp.Assertion {
 	mk := func(id, nameid, mail, role, sess string) *idp.Assertion {
 		attrs := []idp.Attribute{
 			{Name: "mail", FriendlyName: idp.S("Mail"), NameFormat: idp.S("urn:oasis:names:tc:SAML:2.0:attrname-format:basic"), Values: []string{mail}, XsiType: true},
-			{Name: "roles", Values: []string{role, "user"}},
+			{Name: "roles", Values: []string{role, " user\n"}}, // a value whose surrounding white space is signed content
 		}
 		return &idp.Assertion{
 			ID: id, Version: "2.0", IssueInstant: RFC(Now.Add(-time.Second)), Issuer: idp.S(IdpIssuer),
